@@ -171,6 +171,8 @@ pub enum Case {
     Config { which: usize },
     /// every libc call of the baseline trace x alternative
     Libc { key: String, alt: Alt },
+    /// the file behind the dumper's keyed open() has hostile content (redirected at the libc boundary)
+    ProcContent { key: String, content: usize },
     /// the target is SIGKILLed just before the dumper's keyed libc call
     Killed { key: String, n: usize },
     /// mutated ELF image at the start of a file mapping (field index in the builder's table, value index)
@@ -190,6 +192,7 @@ impl Case {
             Case::Config { which } => json!({"family": "config", "which": which}),
             Case::Libc { key, alt } => json!({"family": "libc", "key": key, "alt": format!("{alt:?}")}),
             Case::Killed { key, n } => json!({"family": "killed", "key": key, "n": n}),
+            Case::ProcContent { key, content } => json!({"family": "file-content", "key": key, "content": content}),
             Case::ElfInMemory { image, field, value } => json!({"family": "elf-in-memory", "image": image, "field": field, "value": value}),
         }
     }
@@ -205,6 +208,7 @@ impl Case {
             "thread-name" => Case::ThreadName { name: g("name")?, t: g("t")? },
             "config" => Case::Config { which: g("which")? },
             "elf-in-memory" => Case::ElfInMemory { image: g("image")?, field: g("field")?, value: g("value")? },
+            "file-content" => Case::ProcContent { key: v.get("key")?.as_str()?.to_string(), content: g("content")? },
             "killed" => Case::Killed { key: v.get("key")?.as_str()?.to_string(), n: g("n")? },
             "libc" => {
                 let alt = v.get("alt")?.as_str()?;
@@ -225,6 +229,7 @@ impl Case {
             Case::Config { .. } => "config",
             Case::Libc { .. } => "libc",
             Case::Killed { .. } => "killed",
+            Case::ProcContent { .. } => "file-content",
             Case::ElfInMemory { .. } => "elf-in-memory",
         }
     }
@@ -378,6 +383,24 @@ fn run_on_host(h: &mut Host, c: &Case) -> Verdict {
             total_dump(&h.b.p, &o, vec![], &format!("configuration: {what}"))
         }
         Case::Libc { key, alt } => total_dump(&h.b.p, &DumpOpts::default(), vec![(key.clone(), alt.clone())], &format!("libc answer {key} -> {alt:?}")),
+        Case::ProcContent { key, content } => {
+            let dir = "/verif/target/tmp";
+            let _ = std::fs::create_dir_all(dir);
+            let path = format!("{dir}/hostile_{}_{:?}", std::process::id(), std::thread::current().id()).replace(['(', ')'], "");
+            let (bytes, what): (Vec<u8>, &str) = match content {
+                0 => (vec![], "an empty file"),
+                1 => (b"x".to_vec(), "one byte"),
+                2 => (b"\n\n\n".to_vec(), "newlines only"),
+                3 => ((0..4096u32).map(|i| (i.wrapping_mul(2654435761) >> 13) as u8).collect(), "4 KiB of binary noise"),
+                4 => (vec![b'7'; 200_000], "one 200 000-character line without a newline"),
+                5 => (b"Name:\t\nTgid:\t-1\nPPid:\t99999999999999999999\nPid:\nprocessor\t: 4294967296\nvendor_id\t:\n00000000-ffffffffffffffff rwxp ffffffffffffffff ff:ff 18446744073709551615 /x\n".to_vec(), "well-formed looking lines with out-of-range numbers"),
+                _ => ((0..70_000u32).map(|i| if i % 61 == 60 { b'\n' } else { b'a' + (i % 26) as u8 }).collect(), "70 000 bytes of short text lines"),
+            };
+            let _ = std::fs::write(&path, &bytes);
+            let v = total_dump(&h.b.p, &DumpOpts { stop_timeout_ms: Some(300), ..Default::default() }, vec![(key.clone(), Alt::Redirect(path.clone()))], &format!("{key} redirected to {what}"));
+            let _ = std::fs::remove_file(&path);
+            v
+        }
         _ => Verdict { kind: 0, fails: vec![("harness".into(), "case routed to the wrong runner".into())], structure: vec![] },
     }
 }
@@ -476,7 +499,7 @@ pub fn run_standalone(c: &Case) -> Verdict {
 }
 
 fn is_host_case(c: &Case) -> bool {
-    matches!(c, Case::Ctx { .. } | Case::Auxv { .. } | Case::Linker { .. } | Case::LinkerShape { .. } | Case::Config { .. } | Case::Libc { .. })
+    matches!(c, Case::Ctx { .. } | Case::Auxv { .. } | Case::Linker { .. } | Case::LinkerShape { .. } | Case::Config { .. } | Case::Libc { .. } | Case::ProcContent { .. })
 }
 
 // ---------------------------------------------------------------------------------------------
@@ -618,6 +641,28 @@ pub fn run_real_cases(thorough: bool) -> Vec<(Case, Verdict)> {
             cases.push(Case::Libc { key: c.key.clone(), alt: a });
         }
     }
+    // hostile content behind every file the dumper opens
+    let mut seen = std::collections::HashSet::new();
+    for c in &base_trace {
+        if !c.key.starts_with("open:") || !seen.insert(c.key.clone()) {
+            continue;
+        }
+        // only files whose content the target or the host's administrator controls: command line,
+        // environment, the saved auxiliary vector (PR_SET_MM_AUXV), release files, mapped files.  The
+        // kernel-formatted files (stat, status, maps, limits, cpuinfo) cannot hold arbitrary bytes in
+        // any real world; feeding them noise makes procfs-core's parser panic, which says nothing
+        // about the writer under the property's quantifier.
+        let k = c.key.as_str();
+        let controllable = k.contains("/cmdline#") || k.contains("/environ#") || k.contains("/auxv#") || k.starts_with("open:/etc/") || !k.contains("/proc/");
+        if !controllable {
+            continue;
+        }
+        for content in 0..7 {
+            if thorough || content != 6 {
+                cases.push(Case::ProcContent { key: c.key.clone(), content });
+            }
+        }
+    }
     // the target dies (SIGKILL) just before each keyed call of the baseline trace
     let mut seen = std::collections::HashSet::new();
     for c in &base_trace {
@@ -665,7 +710,7 @@ pub fn run_real_cases(thorough: bool) -> Vec<(Case, Verdict)> {
 }
 
 pub fn run(ctx: &Ctx, rep: &mut Report) {
-    rep.rule = "families: crash-context rsp (27 values) x rip (24) x 3 option sets; live spin-thread rsp (27) x 2, and x 2..3 option sets at a list position >= 20 with the size limit engaged; direct auxv phnum(8) x phdr(8) x gate(4) x entry(4); synthetic linker data: every 8-byte field of 2 program headers, 4 dynamic entries, r_debug, 3 link_maps x 22 boundary values + 12 chain shapes; 10 kinds of /dev-backed mappings; 12 hostile thread names x 3 threads; 26 caller-configuration extremes; every libc call of the baseline trace x its alternatives (errno, 1-byte reads); mutated ELF images in a file mapping; mapping names lib.so.<up to 4(5) components over 13 letters> in-process. nontrivial = cases that deviate from the benign default".into();
+    rep.rule = "families: crash-context rsp (27 values) x rip (24) x 3 option sets; live spin-thread rsp (27) x 2, and x 2..3 option sets at a list position >= 20 with the size limit engaged; direct auxv phnum(8) x phdr(8) x gate(4) x entry(4); synthetic linker data: every 8-byte field of 2 program headers, 4 dynamic entries, r_debug, 3 link_maps x 22 boundary values + 12 chain shapes; 10 kinds of /dev-backed mappings; 12 hostile thread names x 3 threads; 26 caller-configuration extremes; every libc call of the baseline trace x its alternatives (errno, 1-byte reads); mutated ELF images in a file mapping; 6 (7) hostile contents behind every file the dumper opens whose content the target or the host controls (command line, environment, saved auxv, release files, mapped files); mapping names lib.so.<up to 4(5) components over 13 letters> in-process. nontrivial = cases that deviate from the benign default".into();
     rep.assume("'bounded time' is checked as 20 s per dump on targets with a few MiB of readable memory");
     let thorough = ctx.tier.is_thorough();
     if let Some(case) = &ctx.replay {
